@@ -21,7 +21,7 @@
 (* 16-bit halves <<hi,lo>> and enters the abstract semantics through       *)
 (* U32FromHalves, which maps everything >= 2^31 to one out-of-range value. *)
 (***************************************************************************)
-EXTENDS Naturals, Integers, Sequences, Bitwise, TLC
+EXTENDS Naturals, Integers, Sequences, SequencesExt, Bitwise, TLC
 
 MaxCp        == \h10FFFF
 HighStart    == \hD800
@@ -149,14 +149,15 @@ DecAt(w, u, i, n) ==
 (* Canonical decomposition: left-to-right scan into valid items and bad units. *)
 (* Maximal runs of bad units are the ill-formed sequences.                     *)
 
-RECURSIVE ScanFrom(_, _, _, _)
-ScanFrom(w, u, i, acc) ==
-  IF i > Len(u) THEN acc
+\* (a fold over the indices - FoldLeftDomain is evaluated iteratively by TLC - instead of a recursion: inputs of several
+\*  thousand units would otherwise need a Java stack of that depth)
+CanonStep(w, u, acc, i) ==
+  IF i < acc.next THEN acc       \* inside the valid item that started earlier
   ELSE LET n == WfLenAt(w, u, i) IN
-       IF n > 0 THEN ScanFrom(w, u, i + n, Append(acc, [ok |-> TRUE, at |-> i, n |-> n, cp |-> DecAt(w, u, i, n)]))
-       ELSE ScanFrom(w, u, i + 1, Append(acc, [ok |-> FALSE, at |-> i, n |-> 1, cp |-> 0]))
+       IF n > 0 THEN [next |-> i + n, items |-> Append(acc.items, [ok |-> TRUE, at |-> i, n |-> n, cp |-> DecAt(w, u, i, n)])]
+       ELSE [next |-> i + 1, items |-> Append(acc.items, [ok |-> FALSE, at |-> i, n |-> 1, cp |-> 0])]
 
-Canon(w, u) == ScanFrom(w, u, 1, <<>>)
+Canon(w, u) == FoldLeftDomain(LAMBDA acc, i : CanonStep(w, u, acc, i), [next |-> 1, items |-> <<>>], u).items
 
 IsWellFormed(w, u) == \A k \in DOMAIN Canon(w, u) : Canon(w, u)[k].ok
 AllValid(items)    == \A k \in DOMAIN items : items[k].ok
